@@ -30,7 +30,7 @@ var eCmps = []NamedCmp[E]{
 		return cmp.Compare(a.ID, b.ID)
 	}},
 	{"coarse-P/3", func(a, b E) int { return cmp.Compare(floorDiv(a.P, 3), floorDiv(b.P, 3)) }},
-	{"min-by-P-unnormalised", func(a, b E) int { return (a.P - b.P) * 173 }},
+	{"min-by-P-unnormalised", func(a, b E) int { return cmp.Compare(a.P, b.P) * magnitude(uint64(a.P*31+b.P)) }},
 }
 
 // HeapMon shadows a BinaryHeap or PriorityQueue with a multiset.
@@ -74,11 +74,13 @@ func (m *HeapMon) fresh(p int) E { m.nextID++; return E{P: p, ID: m.nextID} }
 
 func (m *HeapMon) DoPush(vs []E) {
 	m.c.Begin(m.Name, m.PushOp, len(vs), vs)
-	m.Push(vs...)
+	arg := append(make([]E, 0, len(vs)+4), vs...) // the caller's batch buffer, with spare capacity
+	m.Push(arg...)
 	for _, v := range vs {
 		m.Set[v]++
 		m.N++
 	}
+	scribble(arg, E{P: -1 << 40, ID: -1}) // ... which the caller then reuses
 	m.c.Count("heap:push-k="+countClass(len(vs)), 1)
 	m.Check()
 }
@@ -273,16 +275,41 @@ func runC06(c *core.Ctx) {
 	if c.Index%40 == 7 {
 		steps = 2000
 	}
-	if c.Index%1600 == 9 {
-		// thousands of elements: bulk loads, then long interleavings
-		for m.N < 2000 {
-			m.DoPush(gen([]int{1, 17, 64, 255, 256, 1000}[r.Intn(6)]))
+	if c.Index%401 == 9 { // (401 is odd: both BinaryHeap and PriorityQueue get big cases)
+		// hundreds to thousands of elements, bulk pushes that cross level
+		// boundaries (255/256, 511/512, 1023/1024), priorities that keep
+		// producing new global minima (descending), maxima (ascending) or ties
+		mode := r.Intn(3)
+		seq := 1 << 30
+		genP := func(k int) []E {
+			vs := gen(k)
+			for i := range vs {
+				switch mode {
+				case 0:
+					seq -= 1 + r.Intn(3)
+					vs[i].P = seq
+				case 1:
+					seq += 1 + r.Intn(3)
+					vs[i].P = seq
+				}
+			}
+			return vs
 		}
-		for k := 0; k < 1000; k++ {
+		target := []int{300, 520, 1030, 1100}[r.Intn(4)]
+		for m.N < target {
+			m.DoPush(genP([]int{1, 2, 3, 17, 64, 255, 256, 257}[r.Intn(8)]))
+			if r.Intn(3) == 0 {
+				m.DoPop()
+			}
+		}
+		for k := 0; k < target/3; k++ {
 			m.DoPop()
+			if r.Intn(4) == 0 {
+				m.DoPush(genP(r.Range(2, 9)))
+			}
 		}
 		c.Count("heap:big-cases", 1)
-		steps = 1000
+		steps = 300
 	}
 	for s := 0; s < steps; s++ {
 		switch r.Pick(30, 12, 30, 10, 1, 4) {
